@@ -54,7 +54,11 @@ ApplyDelta(doc, d) ==
                             THEN [ok |-> TRUE, doc |-> [keys |-> <<d.i>>, mem |-> {}]]
                             ELSE [ok |-> FALSE, doc |-> doc]
 
-DeltaKinds == {"addkey", "remkey", "replace", "addmem", "remmem", "addkey_remmem", "remmem_replace"}
+      \* one json patch of two moves: member i to a member whose NAME holds the characters ~1 (and a /), and back.  It
+      \* applies iff the member is there, and then the document is what it was
+      [] d.k = "renmem"  -> IF d.i \in doc.mem THEN [ok |-> TRUE, doc |-> doc] ELSE [ok |-> FALSE, doc |-> doc]
+
+DeltaKinds == {"addkey", "remkey", "replace", "addmem", "remmem", "addkey_remmem", "remmem_replace", "renmem"}
 
 -----------------------------------------------------------------------------
 (* Anchoring window (C09).                                                 *)
@@ -91,7 +95,7 @@ SigBad == {"bitflip", "otherkey", "trunc", "pad", "payload_field", "hdr_changed"
 DvBad == {"nodelta", "nopatches", "disabled", "invalidpatch", "noaction", "upd_mh", "toolarge"}
 
 Deltas == [k : {"addkey", "remkey", "replace"}, i : KeyIds]
-            \cup [k : {"addmem", "remmem"}, i : Mems]
+            \cup [k : {"addmem", "remmem", "renmem"}, i : Mems]
             \cup [k : {"addkey_remmem", "remmem_replace"}, i : KeyIds]
 
 DefDelta == [k |-> "addkey", i |-> CHOOSE i \in KeyIds : \A j \in KeyIds : i <= j]
